@@ -29,6 +29,7 @@ void *__real_malloc(size_t n);
 #include "common/vnet.h"
 #include "common/fa_alloc.h"
 #include <signal.h>
+#include <fcntl.h>
 #include <stdarg.h>
 #include <sys/wait.h>
 
@@ -790,6 +791,9 @@ static void sc_cache(void) {
   if (r) coap_add_resource(W.srv, r);
   static const uint16_t ign[] = {COAP_OPTION_RTAG};
   R("ignore=%d", coap_cache_ignore_options(W.srv, ign, 1));
+  /* a second call replaces the list (the first one is released) */
+  static const uint16_t ign2[] = {COAP_OPTION_RTAG, COAP_OPTION_ETAG};
+  R("ignore2=%d", coap_cache_ignore_options(W.srv, ign2, 2));
   one_request("c1", COAP_MESSAGE_CON, COAP_REQUEST_CODE_GET, "cache");
   one_request("c2", COAP_MESSAGE_CON, COAP_REQUEST_CODE_GET, "cache");
   if (W.last_code == COAP_RESPONSE_CODE_CONTENT && n_cache_new + n_cache_hit == 2 && n_cache_new == 1 &&
@@ -1195,6 +1199,40 @@ static void sc_wk_mid(void) {
 
 static void sc_wk_big(void) {
   wellknown(14);
+}
+
+static void sc_ctx_listen(void) {
+  /* coap_new_context() with a listen address (the endpoint is created inside), once under
+   * fault and once on an address that is already bound (bind fails without any fault): nothing
+   * of the half-built context may stay behind - memory, DTLS context, epoll and timer descriptors */
+  coap_startup();
+  coap_set_log_level(fa_loglevel());
+  vn_prng_seed(11);
+  fa_armed = 1;
+  coap_address_t a;
+  vn_addr4(&a, VN_LOOPBACK, 0);
+  coap_context_t *c1 = coap_new_context(&a);
+  R("ctx=%d", c1 != NULL);
+  if (c1) {
+    coap_endpoint_t *ep = c1->endpoint;
+    R("ep=%d", ep != NULL);
+    /* an address that is not local: bind() fails (EADDRNOTAVAIL) without any fault */
+    coap_address_t nl;
+    vn_addr4(&nl, 0xc6336401u, 0);                                /* 198.51.100.1 */
+    coap_context_t *c2 = coap_new_context(&nl);
+    R("ctx_not_local=%d", c2 != NULL);
+    if (c2) coap_free_context(c2);
+    coap_free_context(c1);
+  }
+  /* with memory available it works */
+  fa_armed = 0;
+  coap_context_t *c3 = coap_new_context(&a);
+  R("again=%d", c3 != NULL);
+  if (!c3) R("bad=context-cannot-be-created-afterwards");
+  fa_armed = 1;
+  if (c3) coap_free_context(c3);
+  want_canary = 0;
+  coap_cleanup();
 }
 
 static void sc_async(void) {
@@ -1641,6 +1679,7 @@ static const scen_t scens[] = {
   {"async_l1", sc_async_l1}, {"cache_l1", sc_cache_l1}, {"oscore_l1", sc_oscore_l1},
   {"qblock_l1", sc_qblock_l1}, {"obs_big_l1", sc_obs_big_l1},
   {"up_nosize", sc_up_nosize}, {"down_nosize", sc_down_nosize}, {"wk_mid", sc_wk_mid}, {"wk_big", sc_wk_big},
+  {"ctx_listen", sc_ctx_listen},
   {"fetch_obs", sc_fetch_obs}, {"fetch_obs_big", sc_fetch_obs_big}, {"fetch_obs_l1", sc_fetch_obs_l1},
   {NULL, NULL}};
 
@@ -1654,8 +1693,17 @@ static void wr(int fd, const char *s, size_t n) {
   }
 }
 
+/* number of open file descriptors of this process (descriptor leaks: sockets, epoll, timerfd) */
+static int count_fds(void) {
+  int n = 0;
+  for (int i = 0; i < 256; i++)
+    if (fcntl(i, F_GETFD) != -1) n++;
+  return n;
+}
+
 static void child_main(const scen_t *sc, long k1, long k2, int want_sites, long uj, int fd) {
   char tmp[256];
+  int fds0 = count_fds();
   fa_notice_fd = fd;
   fa_u_fail_at = uj;
   fa_nfail = 0;
@@ -1667,9 +1715,9 @@ static void child_main(const scen_t *sc, long k1, long k2, int want_sites, long 
   sc->fn();
   fa_armed = 0;
   fa_final_sweep();
-  int n = snprintf(tmp, sizeof(tmp), "D n=%ld inj=%d canary=%d guard=%ld poison=%ld live=%ld tm=%ld un=%ld\n",
+  int n = snprintf(tmp, sizeof(tmp), "D n=%ld inj=%d canary=%d guard=%ld poison=%ld live=%ld tm=%ld un=%ld fds=%d\n",
                    fa_attempts, fa_injected, canary_result, fa_guard_bad, fa_poison_bad, fa_live,
-                   fa_type_mismatch, fa_u_attempts);
+                   fa_type_mismatch, fa_u_attempts, count_fds() - fds0);
   wr(fd, tmp, (size_t)n);
   /* what is still allocated: id:type:size (naming a leak in the report) */
   wr(fd, "K ", 2);
@@ -1841,7 +1889,7 @@ static void run_fa(void) {
     }
     if (first) printf("-");
   }
-  printf(" %s", d ? d : "n=? inj=? canary=? guard=? poison=? live=? tm=? un=?");
+  printf(" %s", d ? d : "n=? inj=? canary=? guard=? poison=? live=? tm=? un=? fds=?");
   printf(" leaked=%s", kk ? kk : "?");
   printf(" cs=%s", cc ? cc : "?");
   printf(" sends=%s", s ? s : "?");
